@@ -24,6 +24,17 @@ PROP = {
         "n_quick": 160,
         "n_thorough": 2000,
     }, {
+        # REAL blocks of the whole application (module order of app.go, dogfood places and releases the holds): monitors only
+        "name": "fullapp",
+        "harness": "c03app",
+        "header": _HEADER,
+        "case_type": "Ledger.case",
+        "checks": {"mon_release_app": "mon_release_app", "mon_index": "mon_index", "mon_never_early": "mon_never_early",
+                   "mon_aggregates": "mon_aggregates"},
+        "kinds": {"mon_release_app": "monitor", "mon_index": "monitor", "mon_never_early": "monitor", "mon_aggregates": "monitor"},
+        "n_quick": 12,
+        "n_thorough": 60,
+    }, {
         # the real message server (MsgDelegation / MsgUndelegation, native token): no model correspondence (the native-token
         # branch is outside the Coq model), monitors on the implementation's raw stores only
         "name": "msgserver",
@@ -61,6 +72,7 @@ PROP = {
         "the slash proportion newSlashProportion (USD-value computation, CheckSlashParameter) is an input of the Slash op read back from the stored "
         "SlashExecutionInfo; it belongs to C04/C05",
         "entry points run in a cache context committed on success only (message-server mode); precompile partial-write mode belongs to C09",
+        "suite fullapp drives real blocks of the whole application (env.NextBlock: app.EndBlock in the configured module order, real dogfood holds and epoch ends); it is monitor-only: dogfood's scheduling is not in the ledger model",
         "not modelled: NST deposits, staker-operator association (stakers in the generated histories have no associated operator), "
         "operator lifecycle beyond {plain, active validator}; UpdateNSTBalance is inside the theorem fragment",
     ],
